@@ -38,7 +38,7 @@ PROPS['C07'] = dict(
          'false on the unchanged tree (identifier reuse after wrap, unbounded SUBSCRIBE resend); repaired by fix 6dd89ae.')
 
 PROPS['C06'] = dict(
-    sess=[('sess_c06', 300, 4000)],
+    sess=[('sess_c06', 300, 4000), ('py_c06', 300, 4000)],
     events='w', state=['ret', 'rel', 'quota', 'maxquota', 'h', 'conn', 'live', 'cp'],
     monitors=[M.mon_c06],
     title="the broker's Receive Maximum is never exceeded",
